@@ -159,6 +159,22 @@ func pitProbes(hr *HistRun, pits []int64) map[string]string {
 				return strings.Join(xs, ";"), nil
 			})
 		}
+		for _, ins := range []bool{false, true} {
+			ins := ins
+			rec(fmt.Sprintf("volumes oot=%d (no pit) insertion=%v", pu, ins), func() (string, error) {
+				vs, err := listAll(hr.ctx, hr.ctrl.GetVolumesWithBalances, common.InitialPaginatedQuery[ledger.GetVolumesOptions]{PageSize: 50,
+					Options: common.ResourceQuery[ledger.GetVolumesOptions]{OOT: &pit, Opts: ledger.GetVolumesOptions{UseInsertionDate: ins}}})
+				if err != nil {
+					return "", err
+				}
+				var xs []string
+				for _, v := range vs {
+					xs = append(xs, fmt.Sprintf("%s/%s=%s,%s", v.Account, v.Asset, v.Input, v.Output))
+				}
+				sort.Strings(xs)
+				return strings.Join(xs, ";"), nil
+			})
+		}
 		for _, ex := range []string{"volumes", "effectiveVolumes"} {
 			ex := ex
 			rec(fmt.Sprintf("accounts pit=%d expand=%s", pu, ex), func() (string, error) {
